@@ -28,6 +28,7 @@ type Ctx struct {
 	bufS  []string
 	bufI  int
 	bufX  any
+	bufM  any // input/output cell of the modifier that is running
 	bufA  []any
 	bufLC []int64
 	bufMO bytebuf.Chain
@@ -324,6 +325,7 @@ func (ctx *Ctx) Reset() {
 
 	ctx.Err = nil
 	ctx.bufX = nil
+	ctx.bufM = nil
 	ctx.BufX = nil
 	ctx.chQB = false
 	ctx.bnd = ctx.bnd[:0]
